@@ -1,0 +1,17 @@
+//go:build verif
+// +build verif
+
+package ack
+
+import (
+	"github.com/vx-labs/wasp/v4/wasp/expiration"
+	"github.com/zond/gotomic"
+)
+
+// VerifNewQueue builds the production queue over a chosen timeout list implementation.
+func VerifNewQueue(timeouts expiration.List) Queue {
+	return &queue{
+		msg:      gotomic.NewHash(),
+		timeouts: timeouts,
+	}
+}
